@@ -7,6 +7,7 @@
 
 Strings are emitted as explicit `List Char` literals so that `decide` can look at them."""
 import ast
+import textwrap
 from fractions import Fraction
 
 
@@ -176,6 +177,59 @@ def generate(api):
     if compares_max != records_max:
         raise U("%s: finish() compares _displayed_max (%s) but _overwrite() records it (%s)" % (rel, compares_max, records_max))
 
+    # D39 repair: `_overwrite` moves back by the line count of the frame STANDING on the output (`_displayed_line_count`,
+    # recorded at the end of every `_overwrite`; the current format's before the first write) and erases below the cursor
+    # when the new format has another line count.  Both shapes of the cursor/clear block are read strictly.
+    records_lc = records("_displayed_line_count", "_format_line_count")
+    blocks = [st for st in P.strip_doc(ovw.body) if isinstance(st, ast.If) and ast.unparse(st.test) == "self._should_overwrite"]
+    if len(blocks) != 1:
+        raise U("%s: _overwrite() has no single `if self._should_overwrite:` block" % rel)
+
+    def norm(src):
+        return ast.unparse(ast.parse(textwrap.dedent(src)))
+    tail = r"""
+        elif self._write_count > 0:
+            self._io.write_line('')
+    """
+    old_block = norm(r"""
+        if self._should_overwrite:
+            if isinstance(self._io, SectionOutput):
+                lines_to_clear = int(math.floor(len(lines) / self._terminal.width)) + self._format_line_count + 1
+                self._io.clear(lines_to_clear)
+            else:
+                self._io.write('\r')
+                if self._format_line_count:
+                    self._io.write('\x1b[{}A'.format(self._format_line_count))
+    """ + tail)
+    new_block = norm(r"""
+        if self._should_overwrite:
+            if isinstance(self._io, SectionOutput):
+                lines_to_clear = int(math.floor(len(lines) / self._terminal.width)) + line_count + 1
+                self._io.clear(lines_to_clear)
+            else:
+                self._io.write('\r')
+                if line_count:
+                    self._io.write('\x1b[{}A'.format(line_count))
+                if line_count != self._format_line_count:
+                    self._io.write('\x1b[0J')
+    """ + tail)
+    got = ast.unparse(blocks[0])
+    body_src = [ast.unparse(st) for st in P.strip_doc(ovw.body)]
+    pick = ["line_count = self._displayed_line_count",
+            "if line_count is None:\n    line_count = self._format_line_count"]
+    uses_local = [x for x in ast.walk(ovw) if isinstance(x, ast.Name) and x.id == "line_count"]
+    if got == new_block and records_lc:
+        i = body_src.index(pick[0]) if pick[0] in body_src else -1
+        if i < 0 or body_src[i + 1:i + 2] != [pick[1]] or i + 2 > body_src.index(got) \
+                or sum(1 for x in uses_local if isinstance(x.ctx, ast.Store)) != 2:
+            raise U("%s: _overwrite() does not take line_count from _displayed_line_count in the modelled way" % rel)
+        by_displayed = True
+    elif got == old_block and not records_lc and not uses_local:
+        by_displayed = False
+    else:
+        raise U("%s: the cursor movement / section clearing of _overwrite() has a shape the model does not know "
+                "(records _displayed_line_count: %s)" % (rel, records_lc))
+
     ttree, trel = api.parse("utils/time.py")
     tfs = [st for st in ttree.body if isinstance(st, ast.Assign) and len(st.targets) == 1
            and getattr(st.targets[0], "id", None) == "_TIME_FORMATS"]
@@ -236,6 +290,9 @@ def generate(api):
     out.append("/-- `finish()` skips the redraw only when the frame on the line also shows the present maximum\n"
                "(`and self._displayed_max == self._max`, repair of D18b) -/")
     out.append("def finishComparesDisplayedMax : Bool := %s" % ("true" if compares_max else "false"))
+    out.append("/-- `_overwrite()` moves the cursor / clears the section by the line count of the frame standing on the output\n"
+               "(`_displayed_line_count`) and erases below the cursor when the new format has another one (repair of D39) -/")
+    out.append("def overwriteMovesByDisplayedLineCount : Bool := %s" % ("true" if by_displayed else "false"))
     out.append("\n/-- `_TIME_FORMATS` of utils/time.py: (limit in seconds, text, divisor) -/")
     out.append("def timeFormats : List (Nat × List Char × Option Nat) := [")
     out.append(",\n".join("  (%d, %s, %s)" % (l, _chars(t), "none" if d is None else "some %d" % d) for l, t, d in rows))
